@@ -183,6 +183,23 @@ class C16:
             pre = rng.choice(["213 ", "213 ", "213 ", "213-", "    "])
             cases.append("mdtm %d %s" % (code, S(pre + stem + suf)))
             dist.add("mdtm:random")
+        # --- every byte value at every position of a well-formed payload (the neighbours of the digits in the code table,
+        #     '/' and ':' .. '?', signs, blanks, NUL, high bytes: none of them is a digit), substituted and inserted
+        for base, kind in (("213 1234567890", "size"), ("213 " + STEM + ".789", "mdtm"), ("213 " + STEM, "mdtm"), ("213 7", "size")):
+            raw = base.encode("latin-1")
+            for pos in range(4, len(raw) + 1):
+                for b in range(256):
+                    if pos < len(raw):
+                        cases.append("%s 213 %s" % (kind, H(raw[:pos] + bytes([b]) + raw[pos + 1:])))
+                    if thorough or b in (0x2f, 0x3a, 0x3b, 0x3f, 0x20, 0x2b, 0x2d, 0, 0xff, 0xb0, 0x40, 0x60):
+                        cases.append("%s 213 %s" % (kind, H(raw[:pos] + bytes([b]) + raw[pos:])))
+                dist.add("%s:every-byte-value-at-position" % kind)
+        for b in range(256):
+            for k in ("u8", "u16", "u32", "u64"):
+                cases.append("%s %s" % (k, H(bytes([b]))))
+                cases.append("%s %s" % (k, H(b"1" + bytes([b]))))
+                cases.append("%s %s" % (k, H(bytes([b]) + b"1")))
+            dist.add("uN:every-byte-value")
         # --- LIST: all texts over {CR, LF, x}
         maxlen = 10 if thorough else 7
         for n in range(0, maxlen + 1):
